@@ -155,7 +155,7 @@ func execC15(ctx *Ctx, in *Input) *Result {
 				alone := &solo[pl.u.Name][fi]
 				got := &prs[k]
 				d := diffParse2(alone, got, pl.sc, pl.u, true)
-				if d == "" && got.Trace != "" && alone.Trace != got.Trace {
+				if d == "" && got.Trace != "" && !alone.TraceCapped && alone.Trace != got.Trace {
 					d = fmt.Sprintf("trace differs:\n alone: %q\n here:  %q", tailStr(alone.Trace, 300), tailStr(got.Trace, 300))
 				}
 				if pl.sc.Feeds[fi].PanicAt >= 0 {
